@@ -69,7 +69,7 @@ type HOp struct {
 func (h HOp) String() string {
 	tg := ""
 	switch h.Op.K {
-	case kClose, kCloseC, kIsClosed, kCall, kCallCtx:
+	case kClose, kCloseC, kIsClosed, kCall, kCallCtx, kOpen:
 		tg = fmt.Sprintf(" [instance %d]", h.Target)
 	}
 	return fmt.Sprintf("[%4d,%4d] t%-2d #%-3d %s%s -> %s", h.Call, h.Ret, h.T, h.I, h.Op, tg, h.Res)
@@ -85,14 +85,15 @@ func (c *ConcCase) numOps() int {
 
 // counts of one attempt at quiescence, recorded with the history so that replay can re-check.
 type attemptCounts struct {
-	ID      int    `json:"id"`
-	OK      bool   `json:"ok"`
-	Host    bool   `json:"host"`
-	HasNote bool   `json:"has_note"`
-	Notes   int32  `json:"notes"`
-	Code    uint32 `json:"code"`
-	Allocs  int32  `json:"allocs"`
-	Frees   int32  `json:"frees"`
+	ID      int     `json:"id"`
+	OK      bool    `json:"ok"`
+	Host    bool    `json:"host"`
+	HasNote bool    `json:"has_note"`
+	Notes   int32   `json:"notes"`
+	Code    uint32  `json:"code"`
+	Allocs  int32   `json:"allocs"`
+	Frees   int32   `json:"frees"`
+	Files   []int32 `json:"file_closes,omitempty"` // Close calls of every file object the guest opened
 }
 
 type concResult struct {
@@ -220,7 +221,7 @@ func runConc(c *ConcCase) (*concResult, error) {
 			if !r.h.Res.Skip && r.h.Res.Panic == "" {
 				r.h.Res.Inst = e.resolve(r.raw)
 			}
-		case kClose, kCloseC, kIsClosed, kCall, kCallCtx:
+		case kClose, kCloseC, kIsClosed, kCall, kCallCtx, kOpen:
 			if !r.h.Res.Skip {
 				r.h.Target = e.resolve(r.raw)
 			}
@@ -239,7 +240,7 @@ func runConc(c *ConcCase) (*concResult, error) {
 		a := e.attempts[id]
 		_, ok := a.mod.Load().(modBox)
 		res.counts = append(res.counts, attemptCounts{ID: id, OK: ok, Host: a.host, HasNote: a.hasNote,
-			Notes: a.notes.Load(), Code: a.code.Load(), Allocs: a.allocs.Load(), Frees: a.frees.Load()})
+			Notes: a.notes.Load(), Code: a.code.Load(), Allocs: a.allocs.Load(), Frees: a.frees.Load(), Files: a.fileCloses()})
 	}
 	return res, nil
 }
@@ -723,6 +724,11 @@ func quiescence(hist []HOp, counts []attemptCounts) (string, bool) {
 		if c.Host {
 			wantAlloc = 0
 		}
+		for i, n := range c.Files {
+			if n != 1 {
+				return fmt.Sprintf("instance #%d (%s): file object %d that its guest had opened was closed %d times after everything was closed, want exactly 1", c.ID, h.Op, i, n), false
+			}
+		}
 		if c.Allocs != wantAlloc || c.Frees != wantAlloc {
 			return fmt.Sprintf("instance #%d (%s): memory allocated %d times and freed %d times after everything was closed, want %d/%d", c.ID, h.Op, c.Allocs, c.Frees, wantAlloc, wantAlloc), false
 		}
@@ -751,6 +757,16 @@ func quiescence(hist []HOp, counts []attemptCounts) (string, bool) {
 		}
 	}
 	return "", false
+}
+
+// closeErrorExpected: a close may report the I/O error of a file that fails on Close.
+func closeErrorExpected(hist []HOp, h HOp) bool {
+	for _, k := range hist {
+		if k.Op.K == kInst && k.Op.Bad != 0 && (k.I == h.Target || h.Op.K == kRtClose || h.Op.K == kRtCloseC) {
+			return true
+		}
+	}
+	return false
 }
 
 // otherCloserInFlight: does another close that can reach the instance of h overlap h? Such a
@@ -795,8 +811,12 @@ func judge(hist []HOp, counts []attemptCounts) (kind, msg string) {
 			}
 		}
 		switch h.Op.K {
+		case kOpen:
+			if h.Res.Kind != wz.KOK || h.Res.Val != 0 {
+				return "open", fmt.Sprintf("path_open of the guest failed: %s", h)
+			}
 		case kClose, kCloseC, kRtClose, kRtCloseC:
-			if h.Res.Err != "" {
+			if h.Res.Err != "" && !closeErrorExpected(hist, h) {
 				return "close-error", fmt.Sprintf("a close returned an error: %s", h)
 			}
 		}
@@ -922,6 +942,9 @@ func genConc(t *rapid.T) *ConcCase {
 		if rapid.IntRange(0, 5).Draw(t, "frombin") == 0 && (!inThread || (ownCodeOK && compileOK)) {
 			o.FromBin = true
 		}
+		if rapid.Bool().Draw(t, "failing-file-closes") {
+			o.Bad = rapid.IntRange(1, 1<<(numFiles+1)-1).Draw(t, "bad-files")
+		}
 		o.NoNotif = inThread && !notifOK
 		if !o.NoNotif {
 			o.ND = rapid.SampledFrom([]int{0, 0, 0, 1, 2, 5, 20}).Draw(t, "notifier-delay")
@@ -974,6 +997,16 @@ func genConc(t *rapid.T) *ConcCase {
 		if ok {
 			c.Setup = append(c.Setup, o)
 			kinds = append(kinds, o.K)
+		}
+	}
+	// files: the guests of some setup instances open 1-4 files before the goroutines start
+	for i, o := range append([]Op{}, c.Setup...) {
+		if o.K != kInst || rapid.IntRange(0, 9).Draw(t, "open-files") >= 6 {
+			continue
+		}
+		for _, f := range rapid.SliceOfNDistinct(rapid.IntRange(0, numFiles-1), 1, 4, rapid.ID[int]).Draw(t, "files") {
+			c.Setup = append(c.Setup, Op{K: kOpen, H: i, Var: f})
+			kinds = append(kinds, kOpen)
 		}
 	}
 	nt := rapid.IntRange(2, 8).Draw(t, "goroutines")
@@ -1271,6 +1304,11 @@ func concStats(hist []HOp) (nontrivial bool, labels []string) {
 			ctxClose = true
 		}
 	}
+	var withFiles bool
+	for _, h := range hist {
+		withFiles = withFiles || h.Op.K == kOpen
+	}
+	add(withFiles, "conc-instances-with-open-files")
 	add(startAbn, "conc-start-function-ends-abnormally")
 	add(ctxClose, "conc-call-with-done-context")
 	return
